@@ -1,4 +1,5 @@
 import Memterm.Props.C07
+import Memterm.Proofs.ModeOrder
 import Memterm.Proofs.SparseStep
 import Memterm.Proofs.Sgr
 import Memterm.Spec.C12
@@ -570,6 +571,16 @@ theorem sparse_setMode (ss : Sparse.SScreen) (ms : List Nat) (p : Bool) :
 
 theorem sparse_resetMode (ss : Sparse.SScreen) (ms : List Nat) (p : Bool) :
     Sparse.abs (Sparse.resetMode ss ms p) = resetMode (Sparse.abs ss) ms p := Sparse.abs_resetMode ss ms p
+
+/-! #### the order of the blocks in the source -/
+
+/-- `set_mode` written block by block in the order of src/screen.rs (the reverse-video block AFTER the
+    DECCOLM and DECOM blocks) is the same function as the model's `setMode` (which has it first) -/
+theorem source_order_set (s : Screen) (modes : List Nat) (priv : Bool) :
+    setModeSrc s modes priv = setMode s modes priv := setModeSrc_eq s modes priv
+
+theorem source_order_reset (s : Screen) (modes : List Nat) (priv : Bool) :
+    resetModeSrc s modes priv = resetMode s modes priv := resetModeSrc_eq s modes priv
 
 end C12
 end Memterm
